@@ -5,6 +5,10 @@ import json, subprocess
 props=[json.loads(l) for l in open('/verif/properties.jsonl')]
 hooks_commit=subprocess.run(['git','-C','/repo','log','--format=%h','--grep=verif hooks','-1'],capture_output=True,text=True).stdout.strip()
 C={
+ "C05":("model_checking","exhaustive interleaving exploration (controlled scheduler over a sync shim, all lock hand-offs) of Compact with concurrent writers/readers x exhaustive process-crash image enumeration of every interleaved execution; WGL linearizability + acked-state oracles",
+        "2-3 threads, writer programs <= 2 ops; scheduling points at sync operations; process-crash model of C03; time-sliced scenarios report the completed preemption bound"),
+ "C07":("model_checking","exhaustive interleaving exploration (controlled scheduler over a sync shim, unbounded preemptions) of 3-4 thread workloads on colliding keys; every history checked by a Wing-Gong-Lowe linearizability search against the map model",
+        "3-4 threads with <= 2 ops each; scheduling points at sync operations (accesses outside critical sections are the business of C10's race pass)"),
  "C06":("fault_enumeration","exhaustive power-loss image enumeration: every failure instant x every admissible combination of per-file surviving write prefixes (512-byte tears) of every history word <= d, both sync modes; per-key durability oracle","power-loss model as stated in the property; bounded history depth; cap 4096 images per instant (reported when it binds)"),
  "C09":("fault_enumeration","exhaustive power-loss image enumeration over every instant from the return of Close to the end of the next Open x full product of per-file surviving prefixes over all files; exact-contents oracle","power-loss model as stated in the property; bounded history depth"),
  "C01":("model_checking","bounded exhaustive operation-sequence enumeration (explicit-state search on the implementation) against a reference map + structural index invariant",
